@@ -28,6 +28,8 @@ def run(ctx):
         if i % 9 == 0:   # a stream whose test window equals its reference window
             xs = xs[:W] + xs[:W] + xs[W:]
         resets = sorted(rng.sample(range(2, len(xs)), rng.randint(0, 1)))
+        if i % 5 == 2:   # housekeeping resets all through the sliding phase (every third of a window): the caller's reset() restarts a counter, not the test
+            resets = list(range(2 * W + 3, len(xs), max(2, W // 3)))
         ts.append(D.run(p, xs, resets, rng.randrange(10 ** 6)))
     ctx.validate("PCACD", ts, "multivariate streams with level / variance / correlation shifts", sabotage=D.sabotage,
                  replay=lambda i: {"params": ts[i]["params"], "xs": ts[i]["xs"], "resets": ts[i]["resets"], "seed": ts[i]["seed"]},
